@@ -22,7 +22,7 @@ def build_ok(be, sz):
     return True
 
 def resizable(be):
-    return be in ("heap", "reloc")
+    return be.split(":")[0] in ("heap", "reloc")
 
 def cfg_head(cfg):
     return "sz=%d al=%d dg=%d cl=%d trap=%d tr=%s be=%s" % (
@@ -690,7 +690,7 @@ def fam_iter_nth(cfg, tier, rng):
 
 def fam_placement(cfg, tier, rng):
     """C12: storage pointer alignment for every admissible placement of the vector object."""
-    if cfg["be"] == "reloc":
+    if cfg["be"].split(":")[0] == "reloc":
         return []
     return [["placement"]]
 
